@@ -68,6 +68,28 @@ def families():
     return fam
 
 
+ENCODINGS = {"utf-8": ("utf-8", None), "utf-8-sig": ("utf-8-sig", None), "utf-16": ("utf-16", "UTF-16"), "utf-16-be": ("utf-16-be", "UTF-16"),
+             "latin-1": ("latin-1", "ISO-8859-1")}
+
+
+def encode_doc(text: str, enc: str) -> bytes:
+    """The document as stored bytes in another encoding a real file may use (declaration adjusted, BOM where the encoding has one)."""
+    codec, declared = ENCODINGS[enc]
+    if declared:
+        import re
+
+        if text.lstrip("\ufeff \r\n\t").startswith("<?xml"):
+            text = re.sub(r"<\?xml[^?]*\?>", f'<?xml version="1.0" encoding="{declared}"?>', text, count=1)
+        else:
+            text = f'<?xml version="1.0" encoding="{declared}"?>' + text.lstrip("\ufeff \r\n\t")
+    if enc == "latin-1":
+        text = text.replace("\ufeff", "").replace("é", "\xe9")
+        return text.encode("latin-1", "replace")
+    if enc == "utf-16-be":
+        return b"\xfe\xff" + text.replace("\ufeff", "").encode("utf-16-be")
+    return text.encode(codec)
+
+
 def make_doc(entry: str, fam, root: str, variant: int, flavour: int = 0) -> tuple[str, bool]:
     """Returns (document text, declares_entity)."""
     body, rootname = DOCS[entry]
@@ -124,7 +146,10 @@ def make_doc(entry: str, fam, root: str, variant: int, flavour: int = 0) -> tupl
     # legal prolog content between the XML declaration and the DOCTYPE: comments and processing instructions, some of them
     # containing tag-like text (a parser-choosing pre-scan must not be fooled by it)
     prolog = ["", "", "<!-- exported by hvsim -->", f"<!-- <{rootname}> -->", "<!--<Backup/>-->", f'<?editor "<{rootname}>"?>',
-              "<?xml-stylesheet href='a.xsl'?>"][(variant + flavour * 3 + len(kind)) % 7] if (variant or flavour) else ""
+              "<?xml-stylesheet href='a.xsl'?>",
+              # a prolog may be arbitrarily long: a banner comment / padding that pushes the DOCTYPE beyond any fixed-size look-ahead
+              "<!-- " + "generated file - do not edit by hand. " * 60 + "-->", " " * 70000 + "<?pad x?>" + "\n" * 3000,
+              ][(variant + flavour * 3 + len(kind)) % 9] if (variant or flavour) else ""
     text_out = pro + ws + prolog + ws + decl + ws + doc
     if declares and (variant + flavour) % 4 == 3:
         # not well-formed (content before the XML declaration): a first parser must refuse it; a lenient second attempt that
@@ -140,7 +165,13 @@ def _plan(tier, verif_seed):
         for fl in range(len(FLAVOURS[e])):
             for fam in families():
                 for v in range(variants):
-                    plan.append((e, fam, v + (verif_seed - 1) * 100 if v else 0, fl))
+                    plan.append((e, fam, v + (verif_seed - 1) * 100 if v else 0, fl, "utf-8", "r"))
+        # stored encodings other than UTF-8 and binary handles (the constructors take what fh.read() returns, str or bytes)
+        for fam in families():
+            for enc in ENCODINGS:
+                for hmode in ("r", "rb"):
+                    if (enc, hmode) != ("utf-8", "r"):
+                        plan.append((e, fam, 1 + (verif_seed - 1) * 100, 0, enc, hmode))
     return plan
 
 
@@ -150,27 +181,27 @@ def plan_size(prop, tier, verif_seed):
 
 def gen_case(seed, prop, tier, index=0, verif_seed=1):
     plan = _plan(tier, verif_seed)
-    e, fam, v, fl = plan[index % len(plan)]
-    return {"engine": "xmlsim", "prop": prop, "seed": seed, "entry": e, "family": list(fam), "variant": v, "flavour": fl}
+    e, fam, v, fl, enc, hmode = plan[index % len(plan)]
+    return {"engine": "xmlsim", "prop": prop, "seed": seed, "entry": e, "family": list(fam), "variant": v, "flavour": fl, "enc": enc, "hmode": hmode}
 
 
-def _parse(entry, world, path):
+def _parse(entry, world, path, hmode="r"):
     from pathlib import Path
 
     if entry == "ovf":
         from dissect.hypervisor.descriptor.ovf import OVF
 
-        with Path(path).open("r") as fh:
+        with Path(path).open(hmode) as fh:
             return sorted(OVF(fh).disks())
     if entry == "vbox":
         from dissect.hypervisor.descriptor.vbox import VBox
 
-        with Path(path).open("r") as fh:
+        with Path(path).open(hmode) as fh:
             return sorted(VBox(fh).disks())
     if entry == "pvs":
         from dissect.hypervisor.descriptor.pvs import PVS
 
-        with Path(path).open("r") as fh:
+        with Path(path).open(hmode) as fh:
             return sorted(PVS(fh).disks())
     from dissect.hypervisor.disk.hdd import HDD
 
@@ -202,8 +233,12 @@ def run_case(case: dict) -> RunResult:
 
     with world.fs:
         f = SimFile()
-        f.write(0, doc.encode("utf-8"))
+        enc, hmode = case.get("enc", "utf-8"), case.get("hmode", "r")
+        f.write(0, encode_doc(doc, enc) if enc != "utf-8" else doc.encode("utf-8"))
         world.fs.add(d + "/" + fname, f)
+        # a control document stored in another encoding is only expected to parse where the bytes reach the XML parser undecoded
+        # (binary handle); through a text-mode handle or read_text() the UTF-8 decode in front of the parser may refuse it
+        control_must_parse = enc == "utf-8" or (hmode == "rb" and entry != "hdd")
         honey = SimFile()
         honey.write(0, b"TOP-SECRET-HONEYPOT\n")
         world.fs.add(world.root + "/secret.txt", honey)
@@ -225,7 +260,7 @@ def run_case(case: dict) -> RunResult:
                 try:
                     with metered(A_STEPS, "line") as m:
                         try:
-                            result = _parse(entry, world, d + "/" + fname)
+                            result = _parse(entry, world, d + "/" + fname, hmode)
                             outcome = "parsed"
                         except BudgetExceeded:
                             raise
@@ -252,6 +287,8 @@ def run_case(case: dict) -> RunResult:
             viol = v("network", f"network events while parsing: {net[:3]}")
         elif declares and outcome == "parsed":
             viol = v("entity-accepted", f"a document declaring an entity was parsed ({fam})")
+        elif not declares and outcome != "parsed" and not control_must_parse:
+            pass
         elif not declares and outcome != "parsed":
             viol = v("control-refused", f"a document without entity declarations was refused: {outcome} ({fam})")
         elif not declares and result != _clean[ck]:
@@ -264,6 +301,7 @@ def run_case(case: dict) -> RunResult:
     res.probes["xml.entry_" + entry] = 1
     res.probes["xml.flavour_%s_%d" % (entry, flavour)] = 1
     res.probes["xml.family_" + fam[0]] = 1
+    res.probes["xml.stored_as_%s_handle_%s" % (enc, hmode)] = 1
     res.probes["xml.outcome_" + (outcome or "?").split(":")[0]] = 1
     res.faults["hostile_xml:" + fam[0]] += 1 if declares or fam[0] == "external_subset_only" else 0
     res.extra["peak_alloc"] = peak
